@@ -618,14 +618,16 @@ func (w *loopWorld) check(failErr error, ctxErrClosed bool) {
 			return
 		}
 	}
-	// Loop's result
+	// Loop's result, stated on the causes. The closed-listener class is decided
+	// here with the standard library's own test, not with the library's helper.
+	closedListener := func(err error) bool { return err != nil && errors.Is(err, net.ErrClosed) }
 	switch {
 	case failErr != nil && w.acceptErr == failErr:
 		if w.loopErr != failErr {
 			r.Fail("loop-wrong-result", "the accepter failed with %q, Loop returned %v", failErr, w.loopErr)
 			return
 		}
-	case w.acceptErr != nil && channel.IsErrClosing(w.acceptErr):
+	case closedListener(w.acceptErr):
 		if w.loopErr != nil {
 			r.Fail("loop-wrong-result", "the accepter reported a closed listener (%v), Loop returned %v, want nil", w.acceptErr, w.loopErr)
 			return
@@ -635,6 +637,17 @@ func (w *loopWorld) check(failErr error, ctxErrClosed bool) {
 			r.Fail("loop-wrong-result", "the accepter failed with %v, Loop returned %v", w.acceptErr, w.loopErr)
 			return
 		}
+	case w.netPop:
+		// the listener itself reported nothing: NetAccepter ended on its own
+		// account because the context ended, and that counts as a closed listener
+		if w.loopErr != nil {
+			r.Fail("loop-wrong-result", "the context ended and the listener reported no failure, yet Loop over a NetAccepter returned %v, want nil", w.loopErr)
+			return
+		}
+	}
+	if w.loopErr != nil && w.loopErr != failErr && w.loopErr != w.acceptErr {
+		r.Fail("loop-wrong-result", "Loop returned %v, an error that the accepter never reported (accepter: %v)", w.loopErr, w.acceptErr)
+		return
 	}
 	// every call that was answered carries the client's own tag
 	for _, c := range w.conns {
